@@ -39,8 +39,8 @@ HUGE = [2 ** 62, -2 ** 62, 2 ** 63, -2 ** 63, -2 ** 63 - 1]
 
 def sizes(ctx):
     if ctx.quick():
-        return [0, 1, 2, 5, 31, 32, 33, 64, 100]
-    return [0, 1, 2, 3, 5, 31, 32, 33, 63, 64, 65, 96, 100, 127, 128, 129, 1000, 1025]
+        return [0, 1, 2, 5, 31, 32, 33, 64, 100, 1056]
+    return [0, 1, 2, 3, 5, 31, 32, 33, 63, 64, 65, 96, 100, 127, 128, 129, 1000, 1024, 1025, 1056, 2100]
 
 
 def widths(ctx):
